@@ -200,7 +200,7 @@ func (g *gen) observe(st *Node, v *vinfo) *Node {
 func (g *gen) stSide() *Node {
 	for tries := 0; tries < 3; tries++ {
 		var n *Node
-		w := []int{25, 25, 15, 12, 15, 8, 10, 14, 10, 10, 8, 16, 14, 8, 12, 0, 12, 18, 14, 12}
+		w := []int{25, 25, 15, 12, 15, 8, 10, 14, 10, 10, 8, 16, 14, 8, 12, 0, 12, 18, 14, 12, 18, 12}
 		if len(g.libFuncs) > 0 {
 			w[15] = 60
 		}
@@ -216,6 +216,10 @@ func (g *gen) stSide() *Node {
 			n = g.stFuncValueOrder()
 		case 19:
 			n = g.stTupleValueVar()
+		case 20:
+			n = g.stFuncValueMulti()
+		case 21:
+			n = g.stTupleByteArray()
 		case 0:
 			n = g.stCompoundIdx()
 		case 1:
@@ -565,9 +569,11 @@ func (g *gen) stLibFunc() *Node {
 		v := vars[g.n(len(vars), "lv")]
 		call := &Node{K: "call", S: libAlias + "." + v.Name}
 		if len(v.Params) > 0 {
-			arg := fitStore(g.genInt(1))
-			g.noteExpr(arg)
-			call.A = []*Node{arg.n}
+			for range v.Params {
+				arg := fitStore(g.genInt(1))
+				g.noteExpr(arg)
+				call.A = append(call.A, arg.n)
+			}
 			g.mark("imported-func-var-call")
 		} else {
 			g.mark("imported-func-var-call-noargs")
